@@ -4,7 +4,7 @@ F = "harness/c10_serial.c"
 def S(name, entry, desc, ne, tiers, canaries=1, to=1200):
     n = ne + 4
     uw = [f"{entry}.{k}:{n + 2}" for k in range(10)] + [f"idx.0:{n + 1}", f"idx_pl.0:{n + 1}", f"heap_ok.0:{ne + 2}", f"in_heap.0:{ne + 2}", f"env_reset.0:{n + 1}", "env_reset.1:4",
-          "ScheduleNewEvent_serial.0:3", "ScheduleNewEvent_serial.1:5", "w_extract.0:5", f"serial_simulation_run.0:{ne + 2}", "serial_simulation_run.1:5",
+          "ScheduleNewEvent_serial.0:3", "ScheduleNewEvent_serial.1:5", "w_extract.0:6", f"serial_simulation_run.0:{ne + 2}", "serial_simulation_run.1:6",
           "serial_simulation_init.0:4", "serial_simulation_init.1:3", "serial_simulation_init.2:3", "serial_simulation_init.3:3", "serial_simulation_fini.0:4", "serial_simulation_fini.1:3", "memcmp.0:2"]
     return H(name=f"C10.{name}.ne{ne}", file=F, entry=entry, funcs=[], kind="bounded", defs=(f"NE={ne}",),
              bound=f"at most {ne} events in total, 2 LPs, payload size 0 (payload tie-break: C16)", unwindset=tuple(uw), tiers=tiers, timeout=to,
